@@ -199,7 +199,8 @@ META = {
                  "between connections: the mapper model (issued-id map consulted before the initial-id map; lookup_issued_id_ignores_initial_map, "
                  "swapped order refuted) is bridged to the source (tie G) and exercised with a second client whose original DCID is an ID issued to "
                  "the first connection; per-path peer IDs (active_path_packets_unretired; dropped write-back refuted) with clients toggling between "
-                 "two addresses while IDs are retired."),
+                 "two addresses while IDs are retired. Retire Prior To only grows: both assignments in local_id_registry.rs are re-read and bridged, and "
+                 "scenarios use connection-ID providers with per-ID lifetimes so that IDs expire out of sequence-number order."),
         "note": ("Trusted: Lean kernel (standard axioms), vh-e2e harness, python oracle. No in-crate differential tie for the registries (private to "
                  "s2n-quic-transport). Known finding F14 (expired-unconfirmed IDs unroutable). Observation outside the property text (counted in the "
                  "evidence, not reported): path-validation probes of non-active paths keep using a peer ID the peer retired."),
